@@ -40,20 +40,20 @@ type knownFile struct {
 
 // Run collects the obligations of one property check.
 type Run struct {
-	Prop      string
-	Tier      string
-	Seed      int64
-	VerifDir  string
-	Start     time.Time
-	P         *Program
-	Obls      []Obligation
-	floors    []floor
-	unresolved []string
-	skipFloors map[string]bool
-	known     []KnownFinding
-	reviews   []string
-	Rules     map[string]string // rule id -> one-line statement
-	Extra     map[string]interface{}
+	Prop        string
+	Tier        string
+	Seed        int64
+	VerifDir    string
+	Start       time.Time
+	P           *Program
+	Obls        []Obligation
+	floors      []floor
+	unresolved  []string
+	skipFloors  map[string]bool
+	known       []KnownFinding
+	reviews     []string
+	Rules       map[string]string // rule id -> one-line statement
+	Extra       map[string]interface{}
 	Explanation string
 	NotDecided  string
 	TrustedBase []string
@@ -338,6 +338,12 @@ func (r *Run) Finish() int {
 		"callgraph_s":        r.P.CGSecs,
 		"unresolved":         r.unresolved,
 		"exhaustive":         false,
+	}
+	if r.P != nil && r.P.Inline != nil && (len(r.P.Inline.Inlined) > 0 || len(r.P.Inline.Fallback) > 0 || len(r.P.Inline.Declined) > 0) {
+		cov["helper_inlining"] = map[string]interface{}{
+			"inlined": r.P.Inline.Inlined, "declined": r.P.Inline.Declined, "removed_helpers": r.P.Inline.Removed, "fallback": r.P.Inline.Fallback,
+			"note": "functions outside the baseline inventory are expanded into their callers before SSA construction (internal/inline)",
+		}
 	}
 	for k, v := range r.Extra {
 		cov[k] = v
